@@ -30,6 +30,40 @@ type c12lProg struct {
 
 func (p *c12lProg) emit(s string) { p.steps = append(p.steps, "."+s) }
 
+// leaks reports a lock that is held at this point of the program and whose unlock is not deferred: an early return here would
+// leave it locked (the model's early return releases what the call holds, as Go's defer does)
+func (p *c12lProg) leaks() string {
+	held := map[string]bool{}
+	for _, s := range p.steps {
+		switch s {
+		case ".lock", ".rlock", ".mlock":
+			held[s[1:]] = true
+		case ".unlock":
+			held["lock"] = false
+		case ".runlock":
+			held["rlock"] = false
+		case ".munlock":
+			held["mlock"] = false
+		}
+	}
+	for _, d := range p.defers {
+		switch d {
+		case "unlock":
+			held["lock"] = false
+		case "runlock":
+			held["rlock"] = false
+		case "munlock":
+			held["mlock"] = false
+		}
+	}
+	for _, k := range []string{"lock", "rlock", "mlock"} {
+		if held[k] {
+			return k
+		}
+	}
+	return ""
+}
+
 func (p *c12lProg) clone() *c12lProg {
 	return &c12lProg{steps: append([]string{}, p.steps...), defers: append([]string{}, p.defers...)}
 }
@@ -205,6 +239,9 @@ func c12lBranch(fn string, stmts []ast.Stmt, p *c12lProg, mutator string) error 
 			if x.Init != nil || x.Else != nil || !c12lLogReturn(x.Body) {
 				return bad("if statement that is not a guard `if c { log…; return … }`")
 			}
+			if l := p.leaks(); l != "" {
+				return bad("early return while `" + l + "` is held without a deferred unlock")
+			}
 			switch c := x.Cond.(type) {
 			case *ast.UnaryExpr:
 				if c.Op == token.NOT && exprKey(c.X) == "ok" {
@@ -301,6 +338,16 @@ func c12lMutator(fd *ast.FuncDecl, mutator string) (found, absent *c12lProg, err
 	for i, st := range fd.Body.List {
 		bad := func(why string) error { return fmt.Errorf("%s: %s at %s", fn, why, fset.Position(st.Pos())) }
 		if c12lIsLog(st) {
+			continue
+		}
+		if _, isRet := st.(*ast.ReturnStmt); found != nil && !isRet {
+			// a statement after the lookup is reached by both branches (those that did not return)
+			if err := c12lBranch(fn+" (found)", []ast.Stmt{st}, found, mutator); err != nil {
+				return nil, nil, err
+			}
+			if err := c12lBranch(fn+" (absent)", []ast.Stmt{st}, absent, mutator); err != nil {
+				return nil, nil, err
+			}
 			continue
 		}
 		if k, ce := c12lCallKey(st); k != "" {
